@@ -5,14 +5,14 @@ package dbSync
 //
 //vf:job C07 quick VF_C07_SyncRDB m=1..2 par=1..2 cfg=0..3
 //vf:job C07 quick VF_C07_SyncRDB m=3 par=1 cfg=0..3
-//vf:job C07 thorough VF_C07_SyncRDB m=3 par=2 cfg=0..3
+//vf:job C07 thorough VF_C07_SyncRDB m=3 par=2 cfg=0..2
 //vf:job C07 thorough VF_C07_SyncRDB m=2 par=3 cfg=0..1
 //vf:job C06 quick VF_C07_SyncRDB m=2 par=1 cfg=0..5
 //vf:replayE C07 VF_C07_SyncRDB
 //vf:replayE C06 VF_C07_SyncRDB
 //vf:opt C07 preempt=1 thorough_preempt=1 thorough_maxpaths=2000000
 //vf:stub C07 utils.NewRDBLoader: a closed channel pre-filled with the entries (the parser itself is C01); utils.OpenRedisConn: one recording connection per worker, or a connect error; utils.RestoreRdbEntry: records (connection, selected db, entry) and returns a symbolic nil/error (the restore itself is C02); time.After: never fires
-//vf:outside C07 more than 3 workers; progress logging arithmetic
+//vf:outside C07 more than 3 workers; three entries on two workers with an active key filter (cfg=3: above 150 000 schedules); progress logging arithmetic
 
 import (
 	"bufio"
